@@ -62,6 +62,10 @@ def check(repo, col, tier):
     c01_solver._merge(repo, col, "R-C02-schedule")
     # the branch-point rows are summed over groups of edges: weights and group indices must list the edges in the same order, or a
     # uniform voltage does not stay uniform and charge is not conserved at the branch points
+    # the edge table that the conductances and (for jax.sparse) the matrix are built from attaches every branch point to the LAST
+    # compartment of the parent and the FIRST of each child (shared with C01/C12/C13/C15)
+    col.rule("R-C02-ends", "branch-point edges attach at each branch's own first / last compartment", 4)
+    c01_solver._ends(repo, col, "R-C02-ends")
     col.rule("R-C02-levels", "level bookkeeping, branch-point grouping and within-branch edge tables", 8)
     c01_solver._levels(repo, col, "R-C02-levels")
 
